@@ -177,7 +177,7 @@ func (e *Encoder) writeValue(val reflect.Value, tagType byte) error {
 
 		for i := 0; i < val.Len(); i++ {
 			arrType, arrVal := getTagType(val.Index(i))
-			err := e.writeValue(arrVal, arrType)
+			err := e.marshal(arrVal, arrType)
 			if err != nil {
 				return err
 			}
